@@ -114,8 +114,16 @@ def ETomb.samePk (t x : ETomb) : Bool := x.room = t.room && x.ddate = t.ddate &&
 def putETomb (t : ETomb) (l : List ETomb) : List ETomb :=
   if l.any t.samePk then l.map fun x => if t.samePk x then t else x else l ++ [t]
 
-/-- `Room::can` in the world of a case: own rows always, foreign rows with the all-rows right -/
-def can (rights : List Bool) (p : Nat) (own : Bool) : Bool := own || rights.getD p false
+/-- the rights of a case, per member: the date from which the member holds the all-rows right (`some 0`: from the
+    start, `none`: never; every member holds the own-rows right). Rights are dated in the room definition
+    (`EntityRight::valid_from`); the definition itself does not change during a case. -/
+abbrev Rights := List (Option Nat)
+
+/-- `Room::can(key, entity, date, right)`: own rows always, foreign rows with the all-rows right valid at `date` -/
+def can (rights : Rights) (p : Nat) (own : Bool) (date : Nat) : Bool :=
+  own || match rights.getD p none with
+         | some t => decide (t ≤ date)
+         | none => false
 
 inductive Res where
   | ok | okNoChange | okNoRef | okNothing | errAuth | errUnknown
@@ -139,18 +147,18 @@ def opNew (cur : Replica) (p row room ent val sig now : Nat) : Effect :=
   let n : Node := { id := row, room, ent, cdate := now, mdate := now, author := p, val, sig }
   { cur := { cur with nodes := cur.nodes ++ [n] }, marks := [kNode room ent now], res := .ok }
 
-def opUpd (rights : List Bool) (snap cur : Replica) (p row ent val sig : Nat) (room : Option Nat)
+def opUpd (rights : Rights) (snap cur : Replica) (p row ent val sig : Nat) (room : Option Nat)
     (now : Nat) : Effect :=
   match snap.findNode row ent with
   | none => { cur, marks := [], res := .errUnknown }
   | some old =>
-    if !can rights p (old.author = p) then { cur, marks := [], res := .errAuth }
+    if !can rights p (old.author = p) now then { cur, marks := [], res := .errAuth }
     else
       let n : Node := { old with room := room.getD old.room, mdate := now, author := p, val, sig }
       { cur := { cur with nodes := replaceNode n cur.nodes },
         marks := [kNode n.room ent now, kNode old.room old.ent old.mdate], res := .ok }
 
-def opRef (rights : List Bool) (snap cur : Replica) (p row to sig now : Nat) : Effect :=
+def opRef (rights : Rights) (snap cur : Replica) (p row to sig now : Nat) : Effect :=
   match snap.findNode row 0 with
   | none => { cur, marks := [], res := .errUnknown }
   | some old =>
@@ -160,7 +168,7 @@ def opRef (rights : List Bool) (snap cur : Replica) (p row to sig now : Nat) : E
       if snap.edges.any (fun e => e.src = row && e.dest = to) then
         -- nothing changes, the days of both rows are marked all the same
         { cur, marks := [kNode tgt.room tgt.ent tgt.mdate, kNode old.room old.ent old.mdate], res := .okNoChange }
-      else if !can rights p (old.author = p) then { cur, marks := [], res := .errAuth }
+      else if !can rights p (old.author = p) now then { cur, marks := [], res := .errAuth }
       else
         let n : Node := { old with mdate := now, author := p, sig }
         { cur := { cur with nodes := replaceNode n cur.nodes,
@@ -168,7 +176,7 @@ def opRef (rights : List Bool) (snap cur : Replica) (p row to sig now : Nat) : E
           marks := [kNode tgt.room tgt.ent tgt.mdate, kNode old.room 0 now, kNode old.room old.ent old.mdate],
           res := .ok }
 
-def opUnref (d : Defects) (rights : List Bool) (snap cur : Replica) (p row to sig dsig now : Nat) : Effect :=
+def opUnref (d : Defects) (rights : Rights) (snap cur : Replica) (p row to sig dsig now : Nat) : Effect :=
   match snap.findNode row 0 with
   | none => { cur, marks := [], res := .okNothing }
   | some old =>
@@ -182,7 +190,7 @@ def opUnref (d : Defects) (rights : List Bool) (snap cur : Replica) (p row to si
         { cur := { cur with nodes := replaceNode n cur.nodes }, marks := rowMarks, res := .okNoRef }
       else { cur, marks := [], res := .okNothing }
     | some e =>
-      if !can rights p (e.author = p) then { cur, marks := [], res := .errAuth }
+      if !can rights p (e.author = p) now then { cur, marks := [], res := .errAuth }
       else
         let t : ETomb := { src := row, dest := to, room := old.room, cdate := e.cdate, ddate := now,
                            author := p, sig := dsig }
@@ -191,11 +199,11 @@ def opUnref (d : Defects) (rights : List Bool) (snap cur : Replica) (p row to si
                             etombs := putETomb t cur.etombs },
           marks := kNode old.room 0 now :: rowMarks, res := .ok }
 
-def opDel (rights : List Bool) (snap cur : Replica) (p row ent dsig now : Nat) : Effect :=
+def opDel (rights : Rights) (snap cur : Replica) (p row ent dsig now : Nat) : Effect :=
   match snap.findNode row ent with
   | none => { cur, marks := [], res := .okNothing }
   | some old =>
-    if !can rights p (old.author = p) then { cur, marks := [], res := .errAuth }
+    if !can rights p (old.author = p) now then { cur, marks := [], res := .errAuth }
     else
       -- the record of the same version at the same date by the same author is byte-identical: same signature
       let same := cur.ntombs.find? fun x => x.id = row && x.room = old.room && x.ent = old.ent &&
@@ -247,11 +255,11 @@ structure DayResult where
   fetched : Nat
 
 /-- reference deletion records of the day (`delete_edges`, `validate_edge_deletions`, `EdgeDeletionEntry::delete_all`) -/
-def applyETombs (rights : List Bool) (dst : Replica) (ts : List ETomb) : Replica :=
+def applyETombs (rights : Rights) (dst : Replica) (ts : List ETomb) : Replica :=
   let valid := ts.filter fun t =>
     match dst.edges.find? (fun e => e.src = t.src && e.dest = t.dest && e.cdate = t.cdate) with
-    | some e => can rights t.author (e.author = t.author)
-    | none => can rights t.author true
+    | some e => can rights t.author (e.author = t.author) t.ddate
+    | none => can rights t.author true t.ddate
   valid.foldl (fun r t =>
     { r with edges := r.edges.filter (fun e => !(e.src = t.src && e.dest = t.dest && e.cdate = t.cdate)),
              etombs := putETomb t r.etombs,
@@ -263,11 +271,11 @@ def dedupById : List NTomb → List NTomb
   | t :: rest => if rest.any (·.id = t.id) then dedupById rest else t :: dedupById rest
 
 /-- `validate_node_deletions`: the right is judged on the author of the row stored locally (any room, any entity) -/
-def validNTombs (rights : List Bool) (dst : Replica) (ts : List NTomb) : List NTomb :=
+def validNTombs (rights : Rights) (dst : Replica) (ts : List NTomb) : List NTomb :=
   ts.filter fun t =>
     match dst.findId t.id with
-    | some n => can rights t.author (n.author = t.author)
-    | none => can rights t.author true
+    | some n => can rights t.author (n.author = t.author) t.ddate
+    | none => can rights t.author true t.ddate
 
 /-- `NodeDeletionEntry::delete_all` for one record -/
 def applyNTomb (d : Defects) (r : Replica) (t : NTomb) : Replica :=
@@ -283,7 +291,7 @@ def applyNTomb (d : Defects) (r : Replica) (t : NTomb) : Replica :=
            log := markAll ([kNode t.room t.ent t.ddate, kNode t.room t.ent t.mdate] ++ localDay) r.log }
 
 /-- node deletion records of the day (`delete_nodes`, `validate_node_deletions`, `NodeDeletionEntry::delete_all`) -/
-def applyNTombs (d : Defects) (rights : List Bool) (dst : Replica) (ts : List NTomb) : Replica :=
+def applyNTombs (d : Defects) (rights : Rights) (dst : Replica) (ts : List NTomb) : Replica :=
   (validNTombs rights dst (if d.deletionBatchKeyedById then dedupById ts else ts)).foldl (applyNTomb d) dst
 
 /-- `Node::filter_existing`: `none` = not requested, `some old` = requested with the local row `old` -/
@@ -310,14 +318,14 @@ def ingestOldMarks (d : Defects) (n : Node) : Option Node → List Key
   | none => []
 
 /-- `validate_node` + `NodeToInsert::write` + `update_daily_logs` for one fetched row -/
-def ingestNode (d : Defects) (rights : List Bool) (r : Replica) (n : Node) (old : Option Node) : Replica :=
-  if can rights n.author (ingestOwn d n old) then
+def ingestNode (d : Defects) (rights : Rights) (r : Replica) (n : Node) (old : Option Node) : Replica :=
+  if can rights n.author (ingestOwn d n old) n.mdate then
     { r with nodes := putNode n r.nodes,
              log := markAll (kNode n.room n.ent n.mdate :: ingestOldMarks d n old) r.log }
   else r
 
 /-- `synchronise_day` -/
-def syncDay (d : Defects) (rights : List Bool) (dst src : Replica) (room ent day : Nat) : DayResult :=
+def syncDay (d : Defects) (rights : Rights) (dst src : Replica) (room ent day : Nat) : DayResult :=
   let ets := src.etombs.filter fun t => t.room = room && ent = 0 && dayOf t.ddate = day
   let dst1 := if ets.isEmpty then dst else applyETombs rights dst ets
   -- answered in primary-key order `(room_id, deletion_date, id, entity)`
@@ -341,7 +349,7 @@ structure PullResult where
   dst : Replica
   fetched : Nat
 
-def syncDays (d : Defects) (rights : List Bool) (src : Replica) (room : Nat) :
+def syncDays (d : Defects) (rights : Rights) (src : Replica) (room : Nat) :
     List (Nat × Nat) → Replica → Bool → Nat → Replica × Bool × Nat
   | [], dst, ch, f => (dst, ch, f)
   | (ent, day) :: t, dst, ch, f =>
@@ -349,7 +357,7 @@ def syncDays (d : Defects) (rights : List Bool) (src : Replica) (room : Nat) :
     syncDays d rights src room t r.dst (ch || r.changed) (f + r.fetched)
 
 /-- `synchronise_room` (the room definition and the peer rows do not change in a case) -/
-def pull (d : Defects) (rights : List Bool) (dst src : Replica) (room : Nat) : PullResult :=
+def pull (d : Defects) (rights : Rights) (dst src : Replica) (room : Nat) : PullResult :=
   let rem := roomDef src room
   let loc := roomDef dst room
   -- intended: the shortcut through the last day is only sound when the summary covers every entity; without it
@@ -393,14 +401,18 @@ deriving Repr, DecidableEq
 
 structure World where
   peers : List Replica
-  rights : List Bool
+  rights : Rights
   now : Nat
   rows : List (Nat × Nat)       -- rows the harness knows: row ↦ entity
   batch : Option Batch
 deriving Repr, DecidableEq
 
-def World.init (rights : List Bool) : World :=
+def World.initDated (rights : Rights) : World :=
   { peers := rights.map fun _ => Replica.empty, rights, now := 0, rows := [], batch := none }
+
+/-- undated rights: `true` = the all-rows right from the start -/
+def World.init (rights : List Bool) : World :=
+  World.initDated (rights.map fun b => if b then some 0 else none)
 
 def World.peer (w : World) (p : Nat) : Replica := w.peers.getD p Replica.empty
 def World.setPeer (w : World) (p : Nat) (r : Replica) : World := { w with peers := w.peers.set p r }
